@@ -22,9 +22,10 @@ var goodMuls = []string{"1", "2", "3", "5", "0x2", "0x10", "12"}
 var badMuls = []string{"0", "-1", "-9999", "10000", "0x2710", "99999", "99999999999999999999", "0x0", "-0x1"}
 
 type c14gen struct {
-	t     *rapid.T
-	big   int // number of 9999-multipliers still allowed
-	depth int
+	t              *rapid.T
+	big            int // number of 9999-multipliers still allowed
+	depth          int
+	nestedFallback bool
 }
 
 func (g *c14gen) step() *Step {
@@ -81,7 +82,7 @@ func (g *c14gen) psList(movement bool) *PSList {
 	keys := rapid.Permutation([]string{"A", "B", "1", "_"}).Draw(t, "pskeys")
 	nk := rapid.IntRange(1, 4).Draw(t, "npskeys")
 	keys = keys[:nk]
-	if g.depth > 1 {
+	if g.depth > 1 && g.nestedFallback {
 		// a nested poryswitch always has a fallback: what happens to a nested poryswitch
 		// without a matching case inside an unselected case is C12's subject, not C14's
 		has := false
@@ -115,7 +116,7 @@ func (g *c14gen) psList(movement bool) *PSList {
 }
 
 func genC14(t *rapid.T) *C14Case {
-	g := &c14gen{t: t, big: 1}
+	g := &c14gen{t: t, big: 1, nestedFallback: true}
 	c := &C14Case{File: &File{}, Switches: map[string]string{"V": rapid.SampledFrom([]string{"A", "B", "1", "zz"}).Draw(t, "v"), "W": rapid.SampledFrom([]string{"A", "_", "q"}).Draw(t, "w")}}
 	n := rapid.IntRange(1, 4).Draw(t, "ntops")
 	sc := &Script{Name: "S", Body: &Block{Stmts: []*Stmt{}}}
